@@ -123,7 +123,15 @@ theorem CInv.of_mkSpec {rem : List Cb} {e0 : EvId} {s s' : KState ℚ σ} {all :
     rw [hopsC]
     exact List.countP_congr (fun e he => by rw [hproc e (hne_of_lt e (hl e he))])
   constructor
-  · refine ⟨?_, ?_, ?_, ?_, ?_, ?_, ?_, hc.rem_bld_own, hc.rem_bld_cnt, ?_, ?_, ?_, ?_, ?_, ?_⟩
+  · have hremb : ∀ d, Cb.build d ∈ rem → d = e0 ∧ ops s' d ≠ [] := by
+      intro d hm
+      obtain ⟨h1, h2⟩ := hc.rem_bld_own d hm
+      have hdc : isCond s d = true := by
+        cases hcd : isCond s d with
+        | true => rfl
+        | false => exact absurd (ops_nil_of_not_cond hcd) h2
+      exact ⟨h1, by rw [hold_ops d (hcond_ne d hdc)]; exact h2⟩
+    refine ⟨?_, ?_, ?_, ?_, ?_, ?_, ?_, hremb, hc.rem_bld_cnt, ?_, ?_, ?_, ?_, ?_, ?_⟩
     · -- older
       intro d e he
       by_cases hd : d = s.events.size
